@@ -15,6 +15,7 @@ def build():
     parser.register_format(reg)
     optimisation.register(reg)
     colors.register(reg)
+    colors.register_visualiser(reg)
     contrast.register(reg)
     conversions.register(reg)
     reg.mark_inline(*INLINE)
